@@ -76,8 +76,10 @@ PROPS = {
                 'FileTracker::take_first_unused hands out only the OLDEST tracked file and never the last remaining one (O-C06-take-oldest); Directory::gc removes a strict prefix of the tracked files and keeps at least one (O-C06-gc-prefix) '
                 '-- both verified against assumed contracts of BTreeSet::{first,pop_first}; the GC pass is invoked unconditionally by truncate/delete_queue/open (O-C06-gc-invoked-*, syntactic). '
                 '(2) Kani K-handles, BOUNDED (fixed 3-append / 2-file shape, symbolic truncate position): a file handle can_be_deleted() iff no retained record was appended with it. '
-                '(3) E-gate, BOUNDED, native exhaustive enumeration (not symbolic; CBMC exceeds 12 GB on any BTreeSet<FileNumber>): for trackers of 1..=5 files and every subset of pinned files, the GC gate has_files_that_can_be_deleted() is true exactly when a GC pass removes a file, and the pass removes exactly the unpinned prefix short of the last file.',
-        kani_quick=['K-handles', 'E-gate'], kani_thorough=[],
+                '(3) E-gate, BOUNDED, native exhaustive enumeration (not symbolic; CBMC exceeds 12 GB on any BTreeSet<FileNumber>): for trackers of 1..=5 files and every subset of pinned files, the GC gate has_files_that_can_be_deleted() is true exactly when a GC pass removes a file, and the pass removes exactly the unpinned prefix short of the last file. '
+                '(4) E-c06, BOUNDED, native exhaustive enumeration of HISTORIES against the real MultiRecordLog on real (4-block) WAL files: two queues, every history of at most 4 operations out of 11 (small / block-spilling append, truncate all / half, delete+recreate, reopen; 16104 histories): after every truncate / delete / open the directory is exactly the contiguous run of tracked files, holds no file older than both the oldest retained record and the file being written when the call began, and disk_used_bytes is their total size. '
+                'Structural obligations pin the ownership facts no contract can state: O-C06-handle-holders (only RecordMeta, the reader / writer and the tracker hold a FileNumber), O-C06-no-stray-handle-* (no local handle alive at the GC pass), O-C06-gc-after-release-* (the in-memory update precedes the GC pass).',
+        kani_quick=['K-handles', 'E-gate', 'E-c06'], kani_thorough=[],
         trusted=['everything outside the harness'],
         not_decided=['that can_be_deleted() is true exactly when no queue retains a record of the file (Arc strong counts; bounded K-handles only)', 'the directory listing itself', 'disk_used_bytes == tracked files x 128 MiB is verified (resource_usage O-C06-disk-used over RollingWriter::size O-rwr-size); that the files on disk have that size is not'],
     ),
